@@ -3,7 +3,7 @@
     cpu = CPU()                      # builds the executor on demand
     out = cpu.run([case, ...])       # case: dict(code=bytes, stubs=[addr], regs=[8], eflags=int, data=bytes(1024), fx=bytes(512)|None)
     -> list of dict(regs=[8], eflags=int, marker=int, data=bytes(1024), fx=bytes|None, fault=signal or None)
-Addresses: code page 0x20000000 (instruction at +0x800), data page 0x30000000 (window +0x600 .. +0xA00 is transferred).
+Addresses: code page 0x20000000 (instruction at +0x800; with case["low"] the page 0x8000, instruction at 0x8800), data page 0x30000000 (window +0x600 .. +0xA00 is transferred).
 """
 import os
 import struct
@@ -13,6 +13,8 @@ from vlib import runner
 HERE = os.path.dirname(os.path.dirname(os.path.abspath(__file__)))
 CODE, DATA = 0x20000000, 0x30000000
 ENTRY = CODE + 0x800
+LOW = 0x8000            # second code page below 64 KiB (case["low"]): 66-prefixed near branches truncate EIP to 16 bits and stay inside it
+ENTRY_LOW = LOW + 0x800
 WIN_OFF, WIN_LEN = 0x600, 1024
 WIN = DATA + WIN_OFF
 REGS = ["eax", "ecx", "edx", "ebx", "esp", "ebp", "esi", "edi"]
@@ -22,7 +24,8 @@ FLAG_MASK = sum(1 << b for b in STATUS.values())
 
 def exe():
     p = os.path.join(HERE, ".build", "cpu32")
-    if not os.path.exists(p):
+    src = os.path.join(HERE, "vlib", "cpu32", "cpu32.c")
+    if not os.path.exists(p) or os.path.getmtime(p) < os.path.getmtime(src):
         r = subprocess.run(["sh", os.path.join(HERE, "vlib", "cpu32", "build.sh")], stdout=subprocess.PIPE, stderr=subprocess.PIPE)
         if r.returncode != 0 or not os.path.exists(p):
             raise runner.Inconclusive("cannot build the cpu32 executor: %s" % r.stderr.decode(errors="replace")[-300:])
@@ -55,7 +58,7 @@ class CPU(object):
             fx = c.get("fx")
             code = bytes(c["code"])[:16]
             stubs = list(c.get("stubs", []))[:8]
-            buf += struct.pack("<III", 0x43505533, 1 if fx else 0, len(code)) + code.ljust(16, b"\xcc")
+            buf += struct.pack("<III", 0x43505533, (1 if fx else 0) | (2 if c.get("low") else 0), len(code)) + code.ljust(16, b"\xcc")
             buf += struct.pack("<I8I", len(stubs), *(stubs + [0] * (8 - len(stubs))))
             buf += struct.pack("<8I", *[r & 0xFFFFFFFF for r in c["regs"]])
             buf += struct.pack("<I", (c["eflags"] & FLAG_MASK) | 0x202)
